@@ -156,11 +156,11 @@ def _warn_if_cached_parser_is_mismatched(color_output):
     cached_parser_mismatch = parser.module_parser_cache_mismatch()
     extra_production_notes = [
         error.note("<internal>", None, f"New production {prod}")
-        for prod in cached_parser_mismatch[1]
+        for prod in sorted(cached_parser_mismatch[1])
     ]
     missing_production_notes = [
         error.note("<internal>", None, f"Missing production {prod}")
-        for prod in cached_parser_mismatch[0]
+        for prod in sorted(cached_parser_mismatch[0])
     ]
     if extra_production_notes or missing_production_notes:
         _show_errors(
